@@ -1060,18 +1060,18 @@ class Session:
                 want = {ip + x[len(full) :]: v for x, v in src.x.items() if x[: len(full)] == full}
                 if not same_x(got[ip], want, bits=True):
                     self.viol("C34.subtrace-choices", {"C34"}, i, rep, "subtrace %r%s choices %s vs parent submap %s" % (key, list(ip), fmt_x(got[ip]), fmt_x(want)))
-                wsc = src.calls.get(full)
-                if wsc is None:
-                    continue
-                if batch is None:
-                    have = sc.sum() if sc.shape else sc
-                else:
-                    if sc.shape[:1] != (batch,):
-                        self.viol("C34.subtrace-score", {"C34"}, i, rep, "subtrace %r score shape %s, expected leading axis %d (stacked)" % (key, sc.shape, batch))
-                        break
-                    have = sc[ip[0]].sum()
-                if not obs.close(have, wsc):
-                    self.viol("C34.subtrace-score", {"C34"}, i, rep, "subtrace %r%s score %s vs call contribution %.6f" % (key, list(ip), have, wsc))
+            # score: the call's contribution to the parent's score.  A stacked
+            # subtrace either keeps one score per element (distribution traces) or
+            # sums them (StaticTrace.get_score sums every leaf): both are "the
+            # stacked call's contribution"; which one is decided by the shape.
+            parts = [src.calls.get(ip + pre) for ip in idxs]
+            if all(p is not None for p in parts):
+                if batch is not None and sc.shape[:1] == (batch,):
+                    for ip, p in zip(idxs, parts):
+                        if not obs.close(sc[ip[0]].sum(), p):
+                            self.viol("C34.subtrace-score", {"C34"}, i, rep, "subtrace %r%s score %s vs call contribution %.6f" % (key, list(ip), sc[ip[0]], p))
+                elif not obs.close(sc.sum() if sc.shape else sc, sum(parts)):
+                    self.viol("C34.subtrace-score", {"C34"}, i, rep, "subtrace %r score %s vs call contribution %.6f" % (key, sc, sum(parts)))
             n_ok += 1
         self.probe("subtrace:checked", n_ok)
         if batch is not None:
